@@ -19,14 +19,15 @@ theorem snarf_days (n : Int) (hn : -366 ≤ n ∧ n ≤ 366) : snarfShift (toStr
   have h := strtol_int n hn [] notdig_nil
   rw [List.append_nil] at h
   unfold snarfShift
-  rw [go_end _ _ _ _ _ _ h.1]
+  rw [go_end _ _ _ _ _ _ h.1, packShift_eq _ _ _ (by omega) (by omega)]
   have := xor_pack n 0 0 hn (by omega) (by omega)
   simpa using this
 
 theorem finB_val (sem : Nat) (hs : sem = 0 ∨ sem = 2) (b d : Int) (neg : Bool)
     (hb : -366 ≤ b ∧ b ≤ 366) (hd : -366 ≤ d ∧ d ≤ 366) :
     finB sem b d neg = mkSh d b.natAbs (decide (b < 0) || (decide (b = 0) && neg)) (decide (sem = 2)) := by
-  unfold finB mkSh
+  rw [finB_eq_finBx sem b d neg hb hd]
+  unfold finBx mkSh
   by_cases h0 : b = 0
   · subst h0
     rcases hs with rfl | rfl <;> cases neg <;> simp <;>
